@@ -18,8 +18,8 @@ func init() {
 		Explanation: "Decides ONE structural clause of 'decoding a well-formed UTF-16BE text string never fails / text reads back unchanged': the decoder's classification of 16-bit code units agrees with the Unicode partition BMP [0000,D7FF] · high surrogates [D800,DBFF] · low surrogates [DC00,DFFF] · BMP [E000,FFFF]. " +
 			"(R1) every comparison of a 16-bit code unit with a constant in types.decodeUTF16String is normalised to a half-line (v <= c, v < c → v <= c-1, v >= c, v > c → v >= c+1; negated branch edges are the same cut) and its cut must be one of the partition's cuts: upper ends D7FF, DBFF, DFFF, FFFF; lower ends 0000, D800, DC00, E000. An off-by-one constant or operator (v > 0xE000) misclassifies a valid character as a surrogate and makes a well-formed string fail to decode. " +
 			"(R2) the encoder side hands the text to the standard library: EncodeUTF16String calls unicode/utf16.Encode and writes the byte order mark FE FF; EscapedUTF16String rejects invalid UTF-8 before encoding. " +
-			"NOT decided: the round trip itself over all scalar values (surrogate arithmetic is the standard library's), which writer is used for which text entry, PDFDocEncoding/UTF-8 guessing for strings without a byte order mark.",
-		Rules:       []string{"C13.R1 TABLE: code-unit comparisons of the UTF-16 decoder cut exactly at the Unicode partition", "C13.R2 shape: the encoder delegates to unicode/utf16 and writes the byte order mark"},
+			"(R3) the decoder cuts the byte order mark off once, outside any loop (U+FEFF as first character is FE FF as well); (R1 also covers the encoder: a hand-written BMP test must cut between FFFF and 10000). NOT decided: the round trip itself over all scalar values (surrogate arithmetic is the standard library's), which writer is used for which text entry, PDFDocEncoding/UTF-8 guessing for strings without a byte order mark.",
+		Rules:       []string{"C13.R1 TABLE: code-unit comparisons of the UTF-16 decoder cut exactly at the Unicode partition", "C13.R2 shape: the encoder delegates to unicode/utf16 and writes the byte order mark", "C13.R3 shape: the byte order mark is stripped exactly once"},
 		Assumptions: []string{"unicode/utf16.Encode / Decode are correct"},
 		Level:       "other",
 		Technique:   "constant/operator table agreement on SSA comparisons of 16-bit values",
@@ -31,6 +31,8 @@ func runC13(c *Ctx) {
 	p, r := c.P, c.R
 	r.MinInst["C13.R1"] = 5
 	r.MinInst["C13.R2"] = 2
+	r.MinInst["C13.R3"] = 1
+	checkC13Extras(c)
 	fid := "pkg/pdfcpu/types.decodeUTF16String"
 	fn := p.Func(fid)
 	if fn == nil {
@@ -139,5 +141,85 @@ func runC13(c *Ctx) {
 		} else {
 			r.Bad("C13.R2", FuncID(esc), "validates then encodes", p.Pos(esc.Pos()), "EscapedUTF16String no longer validates its input as UTF-8 or no longer encodes through EncodeUTF16String: []rune conversion silently replaces invalid bytes by U+FFFD")
 		}
+	}
+}
+
+// ---------------- round 3 seeds: BOM stripped once; encoder plane boundary ----------------
+
+func checkC13Extras(c *Ctx) {
+	p, r := c.P, c.R
+	// R3: the byte order mark is removed exactly once, not in a loop (a leading U+FEFF character is FE FF too)
+	if fn := p.Func("pkg/pdfcpu/types.decodeUTF16String"); fn != nil {
+		inLoop := map[*ssa.BasicBlock]bool{}
+		for _, l := range naturalLoops(fn) {
+			for b := range l.blocks {
+				inLoop[b] = true
+			}
+		}
+		n := 0
+		eachInstr(fn, func(b *ssa.BasicBlock, _ int, i ssa.Instruction) {
+			sl, ok := i.(*ssa.Slice)
+			if !ok || sl.Low == nil || sl.High != nil {
+				return
+			}
+			k, ok := constInt(sl.Low)
+			if !ok || k != 2 {
+				return
+			}
+			n++
+			if inLoop[b] {
+				r.Bad("C13.R3", FuncID(fn), fmt.Sprintf("BOM strip#%d", n), p.Pos(sl.Pos()), "the two byte order mark bytes are cut off inside a loop: text that starts with the character U+FEFF is encoded FE FF FE FF …, and every repetition is dropped, so the text does not read back unchanged")
+			} else {
+				r.OK("C13.R3", FuncID(fn), fmt.Sprintf("BOM strip#%d", n), p.Pos(sl.Pos()), "the byte order mark is cut off once, outside any loop", true)
+			}
+		})
+		if n == 0 {
+			r.Bad("C13.R3", FuncID(fn), "BOM strip", p.Pos(fn.Pos()), "UNRESOLVED-ANCHOR: no b[2:] found in the decoder")
+		}
+	}
+	// R1 (encoder side): comparisons of a rune with a constant cut at a plane / surrogate boundary
+	if fn := p.Func("pkg/pdfcpu/types.EncodeUTF16String"); fn != nil {
+		upper := map[int64]bool{0xD7FF: true, 0xDFFF: true, 0xFFFF: true, 0x10FFFF: true, 0x7F: true, 0xFF: true}
+		n := 0
+		eachInstr(fn, func(_ *ssa.BasicBlock, _ int, i ssa.Instruction) {
+			b, ok := i.(*ssa.BinOp)
+			if !ok {
+				return
+			}
+			switch b.Op {
+			case token.LSS, token.LEQ, token.GTR, token.GEQ:
+			default:
+				return
+			}
+			v := b.X
+			op := b.Op
+			k, isC := constInt(b.Y)
+			if !isC {
+				k, isC = constInt(b.X)
+				v = b.Y
+				op = mirrorOp(op)
+			}
+			if !isC {
+				return
+			}
+			bt, ok := v.Type().Underlying().(*types.Basic)
+			if !ok || (bt.Kind() != types.Int32 && bt.Kind() != types.Uint16 && bt.Kind() != types.Uint32) {
+				return
+			}
+			if k < 0x80 {
+				return // loop counters and the like
+			}
+			n++
+			cut := k
+			if op == token.LSS || op == token.GEQ {
+				cut = k - 1
+			}
+			construct := fmt.Sprintf("rune %s 0x%X#%d", op, k, n)
+			if upper[cut] {
+				r.OK("C13.R1", FuncID(fn), construct, p.Pos(b.Pos()), fmt.Sprintf("cuts between 0x%X and 0x%X: a plane or surrogate boundary", cut, cut+1), true)
+			} else {
+				r.Bad("C13.R1", FuncID(fn), construct, p.Pos(b.Pos()), fmt.Sprintf("the encoder cuts the code points between 0x%X and 0x%X, which is neither the end of the basic multilingual plane (FFFF|10000) nor a surrogate boundary: the code point next to the cut is written with the wrong number of code units and reads back as another character", cut, cut+1))
+			}
+		})
 	}
 }
